@@ -518,6 +518,12 @@ def intersection(*args, **kwargs):
             def __iter__(self):
                 start_pos = [None] * (len(self.fibers) - 1)
 
+                # The followers' saved positions are used as search
+                # shortcuts below, so they must come from this traversal
+                # and not from whatever used the fibers before
+                for fiber in self.fibers[1:]:
+                    fiber.setSavedPos(0)
+
                 is_collecting = Metrics.isCollecting()
                 leader_traced = False
                 traces = [""] * len(self.fibers)
